@@ -41,6 +41,9 @@ def reader_population(n, seed, ndims=(2, 3), payloads=("random", "special", "ext
             g["origin"] = [-1.0, -2.0, 3.0][:nd]
         if i % 16 == 9 and max_fields >= 8:      # as many fields as real output has; 3-digit component counts
             g["nfields"] = [38, 101][(i // 16) % 2]
+        if i % 16 == 10 and g["nfields"] <= 12:      # names that differ only in letter case, or are part of one another
+            g["nfields"] = max(g["nfields"], 3)
+            g["names"] = gen.confusable_names(random.Random(g["seed"]), g["nfields"])
         f = dict(ref_ratio_extra=rng.choice([0, 0, 1, 3]), trailing_blank=rng.random() < 0.7,
                  close_blank=rng.random() < 0.3, floatfmt=rng.choice(["repr", "17g"]))
         if i % 16 == 12:      # level directories under another prefix than the default (the Header says where they are)
